@@ -179,7 +179,8 @@ def rename_op(st, r, i, new):
     old = M.name_of(rec)
     st.model.rename(rec, new)
     if rec.rt == "S":
-        st.slen[new] = st.slen.get(old, 8)
+        st.seq.pop(new, None)  # a stale plan of an earlier segment of that name
+        st.slen[new] = H.seg_len(st, old)
         if old in st.seq:
             st.seq[new] = st.seq[old]
         for ek in list(st.ov_policy):
